@@ -151,6 +151,11 @@ def value_desc(rng, rt, cls, b):
         return ["int", "0"]
     fields = G.STRUCTS[rt]
     oks = [b.item_ok(f) for f in fields]
+    if cls == "short":          # fewer items than fields: the rest must reach C as zeros
+        return [rng.choice(["list", "tuple"]), oks[:rng.randint(0, len(fields) - 1)]]
+    if cls == "dshort":
+        order = rng.sample(range(len(fields)), rng.randint(0, len(fields) - 1))
+        return ["dict", [[i, oks[i]] for i in order]]
     if cls in ("ok", "ok2", "err"):
         return ["list" if cls != "ok2" else "tuple", oks]
     if cls == "ovf":
@@ -165,6 +170,8 @@ def enc_value(d):
         return {"k": "cptr", "ct": G.tla_type("p_i32"), "cell": d[1] + 1}
     if d[0] in ("list", "tuple"):
         return {"k": "list", "items": [enc_value(x) for x in d[1]]}
+    if d[0] == "dict":
+        return {"k": "dict", "keys": [i + 1 for i, _x in d[1]], "items": [enc_value(x) for _i, x in d[1]]}
     return G.enc_desc(d, [])
 
 
